@@ -133,12 +133,87 @@ def check(ctx):
     return C.result()
 
 
+def source_literals(fn_name):
+    """numeric literals of the current source of one benchmark function (they steer the search towards
+    dimension thresholds and special coordinates a changed body may test for)"""
+    ints, floats = set(), set()
+    try:
+        t = ast.parse(open(f'{common.REPO}/opytimizer/math/benchmark.py').read())
+        for f in t.body:
+            if isinstance(f, ast.FunctionDef) and f.name == fn_name:
+                for n in ast.walk(f):
+                    if isinstance(n, ast.Constant) and not isinstance(n.value, bool):
+                        if isinstance(n.value, int):
+                            ints.add(n.value)
+                        elif isinstance(n.value, float):
+                            floats.add(n.value)
+    except Exception:
+        pass
+    return ints, floats
+
+
+def directed_search(ctx, names):
+    """the implicated functions at many more dimensions and at special coordinates (exact zeros, signed zeros,
+    bounds, literals of the source), against the independent transcription of the docstring formula"""
+    import random
+    L = lib.load()
+    np = L['np']
+    import opytimizer.math.benchmark as bm
+    rng = random.Random(ctx['seed'] + 4242)
+    for name in names:
+        if name not in REF or not hasattr(bm, name):
+            continue
+        fn = getattr(bm, name)
+        lo, hi = documented(name) or (-1.0, 1.0)
+        ints, floats = source_literals(name)
+        dims = sorted({d for d in list(range(1, 10)) + [16, 31, 32, 33, 50, 51, 64, 100, 101, 128, 257, 1000]
+                       + [k + e for k in ints for e in (-1, 0, 1) if 1 <= k + e <= 5000] if d >= (2 if name == 'brown' else 1)})
+        specials = [0.0, -0.0, lo, hi, (lo + hi) / 2, 1.0, -1.0] + [v for v in floats if lo <= v <= hi] + [float(k) for k in ints if lo <= k <= hi]
+        for n in dims:
+            for rep in range(12 if n <= 128 else 3):
+                mode = rep % 4
+                if mode == 0:
+                    x = [rng.uniform(lo, hi) for _ in range(n)]
+                elif mode == 1:
+                    x = [rng.choice(specials) if rng.random() < 0.3 else rng.uniform(lo, hi) for _ in range(n)]
+                elif mode == 2:
+                    x = [rng.choice(specials) for _ in range(n)]
+                else:
+                    x = [rng.uniform(max(lo, 0.0), hi) if hi > 0 else rng.uniform(lo, hi) for _ in range(n)]
+                try:
+                    y = float(fn(np.array(x, dtype=float)))
+                except Exception as ex:
+                    return dict(what='benchmark-raised', layer='oracle', replay=dict(how='bench', name=name, x=x), error=repr(ex)[:120])
+                try:
+                    ref = float(REF[name](x))
+                except (ValueError, ZeroDivisionError, OverflowError, TypeError):
+                    continue
+                if isinstance(ref, complex) or ref != ref:
+                    continue
+                tol = 1e-9 * (1 + n / 8)
+                if (y != y) or not close(ref, y, tol):
+                    return dict(what='not-the-documented-formula', layer='oracle', replay=dict(how='bench', name=name, x=x, tol=tol),
+                                got=y, reference=ref)
+    return None
+
+
 def search(ctx, corr, broken):
     res = check(dict(ctx, tier='thorough'))
     for i in res['issues']:
         if i['layer'] == 'oracle':
             return i
-    return None
+    # which functions do the broken obligations / correspondences name?
+    names = []
+    for b in broken:
+        for n in REF:
+            if f'bench_{n}_eq' in str(b[0]) or f'code_{n}' in str(b[0]) or f'"{n}"' in str(b[1]):
+                names.append(n)
+    for c in corr:
+        n = (c.get('replay') or {}).get('name')
+        if n:
+            names.append(n)
+    names = list(dict.fromkeys(names)) or list(REF)
+    return directed_search(ctx, names)
 
 
 def replay(prop, payload):
@@ -151,7 +226,7 @@ def replay(prop, payload):
         ref = float(REF[name](x))
     except Exception:
         ref = float('nan')
-    bad = (not close(ref, y) and not (ref != ref or y != y)) or (ref == ref and y != y)
+    bad = (not close(ref, y, payload.get('tol', 1e-9)) and not (ref != ref or y != y)) or (ref == ref and y != y)
     if name in COHERENT and y == y and not (name == 'csendes' and any(v == 0 for v in x)):
         bad = bad or y < COHERENT[name][0](len(x)) - 1e-9
     return bad
